@@ -7,4 +7,5 @@ CONSTANTS
   FixD10 = TRUE
   FixD12 = TRUE
   FixD17 = TRUE
+  FixD18 = TRUE
 PROPERTY C06_StopTerminates
